@@ -164,11 +164,11 @@ func numOfBig(v *big.Int) []int64 {
 	return out
 }
 
-func numOfI64(v int64) []int64 { return numOfBig(big.NewInt(v)) }
+func numOfI64(v int64) []int64  { return numOfBig(big.NewInt(v)) }
 func numOfU64(v uint64) []int64 { return numOfBig(new(big.Int).SetUint64(v)) }
 
 func isSigned[T constraints.Integer]() bool { return ^T(0) < 0 }
-func bitsOf[T constraints.Integer]() int { return int(unsafe.Sizeof(T(0))) * 8 }
+func bitsOf[T constraints.Integer]() int    { return int(unsafe.Sizeof(T(0))) * 8 }
 
 func numOfInt[T constraints.Integer](v T) []int64 {
 	if isSigned[T]() {
@@ -244,8 +244,34 @@ func dirtyInt[D signal.SignalTypes](pat uint64) D {
 
 func fromU64[D signal.SignalTypes](v uint64) D { return D(v) }
 
+// preamble: before a recorded conversion the same function converts the recorded input reversed (and rotated), repeated
+// to more than twice its length, into destinations HALF as long: whatever a call leaves behind beyond the common
+// prefix (pooled scratch, cached per-position decisions, ...) must not reach the next call.
+func preamble[S, D signal.SignalTypes](conv func(*signal.Buffer[S], *signal.Buffer[D]) int, in []S) {
+	n := len(in)
+	if n < 2 {
+		return
+	}
+	for mode := 0; mode < 2; mode++ {
+		m := 2*n + 3
+		src := signal.Alloc[S](signal.Allocator{Channels: 1, Length: m, Capacity: m})
+		dst := signal.Alloc[D](signal.Allocator{Channels: 1, Length: n / 2, Capacity: n / 2})
+		for i := 0; i < m; i++ {
+			if mode == 0 {
+				src.SetSample(i, in[(n-1-i%n)%n])
+			} else {
+				src.SetSample(i, in[(i+n/2)%n])
+			}
+		}
+		conv(src, dst)
+	}
+}
+
 func convertSlice[S, D signal.SignalTypes](conv func(*signal.Buffer[S], *signal.Buffer[D]) int, in []S) []D {
 	n := len(in)
+	if n <= 1<<17 {
+		preamble(conv, in)
+	}
 	// Interleave over 1..3 channels. The buffers are filled sample by sample, so when n is not a multiple of the
 	// channel count the last frame is partly filled (ragged); the destination starts dirty, so that a sample the
 	// function fails to convert cannot pass as a converted one.
@@ -464,15 +490,42 @@ func quantShuffled[S, D constraints.Integer](w *numWriter, rng *rand.Rand, fn, s
 	if bitsOf[D]() <= bitsOf[S]() {
 		back = nil // the round trip is claimed for widening only
 	}
-	shuffledBlocksRT(rng, conv, back, xs, 300, func(x S, y D) { w.emit(&NEvent{Op: "P", X: numOfInt(x), Y: numOfInt(y)}) },
-		func(x S, y D, z S) { w.emit(&NEvent{Op: "RT", X: numOfInt(x), Y: numOfInt(y), Z: numOfInt(z)}) })
+	type pt struct {
+		x S
+		y D
+	}
+	var pts []pt
+	shuffledBlocksRT(rng, conv, back, xs, 300, func(x S, y D) {
+		pts = append(pts, pt{x, y})
+		w.emit(&NEvent{Op: "P", X: numOfInt(x), Y: numOfInt(y)})
+	}, func(x S, y D, z S) { w.emit(&NEvent{Op: "RT", X: numOfInt(x), Y: numOfInt(y), Z: numOfInt(z)}) })
+	// the same points once more as ONE ordered scan: results obtained at different positions of different small
+	// blocks (whole blocks and leftovers of a blocked loop, ...) must still be ordered like their inputs
+	defer func() {
+		sort.Slice(pts, func(i, j int) bool {
+			if pts[i].x != pts[j].x {
+				return ord(pts[i].x) < ord(pts[j].x)
+			}
+			return ord(pts[i].y) < ord(pts[j].y)
+		})
+		w.start(&NEvent{Fam: "quant", Fn: fn, STy: sty, DTy: dty, Ss: b2i(isSigned[S]()), Sd: bitsOf[S](), Ds: b2i(isSigned[D]()), Dd: bitsOf[D]()})
+		for i, p := range pts {
+			if i > 0 && p == pts[i-1] {
+				continue
+			}
+			w.emit(&NEvent{Op: "P", X: numOfInt(p.x), Y: numOfInt(p.y)})
+		}
+	}()
 	// the instantiations run in parallel goroutines: a block of 300 samples converted 150 times while the other
 	// formats of the same source type are being converted next door
 	blk := make([]S, 300)
 	for i := range blk {
 		blk[i] = xs[rng.Intn(len(xs))]
 	}
-	repeatDistinct(conv, blk, 150, func(x S, y D) { w.emit(&NEvent{Op: "P", X: numOfInt(x), Y: numOfInt(y)}) })
+	repeatDistinct(conv, blk, 150, func(x S, y D) {
+		pts = append(pts, pt{x, y})
+		w.emit(&NEvent{Op: "P", X: numOfInt(x), Y: numOfInt(y)})
+	})
 }
 
 // ordered image of an integer value in uint64 (order preserving for one type)
